@@ -158,6 +158,38 @@ def run(tier: str, seed: int) -> list[Part]:
         _tlc_judge(events, part)
         part.wall_s = time.time() - t0
         parts.append(part)
+    # the binding binds: corrupted real answers must be rejected by TLC
+    st = Part(name="tracepairs:corrupt-one-field", cfg="TracePairs", states=1, transitions=1, exhaustive=False)
+    bad = [
+        ("a slice reported to commute past a sort",
+         {"kind": "commute", "mode": "general", "tc": ["a", "b"], "err": "none",
+          "cur": {"o": "sort", "terms": [{"e": {"x": "ref", "c": "a"}, "asc": True}]}, "new": {"o": "slice", "a": 0, "b": 1},
+          "first": {"o": "slice", "a": 0, "b": 1}, "second": {"o": "sort", "terms": [{"e": {"x": "ref", "c": "a"}, "asc": True}]}, "done": True}),
+        ("a refusal that does not hand back the existing operation",
+         {"kind": "commute", "mode": "general", "tc": ["a", "b"], "err": "none",
+          "cur": {"o": "slice", "a": 0, "b": 2}, "new": {"o": "dedup"},
+          "first": {"o": "none"}, "second": {"o": "slice", "a": 0, "b": 1}, "done": False}),
+        ("two slices merged with a wrong stop",
+         {"kind": "merge", "mode": "slices", "tc": ["a"], "err": "none",
+          "cur": {"o": "slice", "a": 1, "b": 3}, "new": {"o": "slice", "a": 0, "b": 5},
+          "res": {"k": "un", "op": {"o": "slice", "a": 1, "b": 6}, "t": {"k": "leaf", "id": "L"}}}),
+        ("two sorts merged in the wrong priority",
+         {"kind": "merge", "mode": "sorts", "tc": ["a", "b"], "err": "none",
+          "cur": {"o": "sort", "terms": [{"e": {"x": "ref", "c": "a"}, "asc": True}]},
+          "new": {"o": "sort", "terms": [{"e": {"x": "ref", "c": "b"}, "asc": True}]},
+          "res": {"k": "un", "op": {"o": "sort", "terms": [{"e": {"x": "ref", "c": "a"}, "asc": True}, {"e": {"x": "ref", "c": "b"}, "asc": True}]},
+                  "t": {"k": "leaf", "id": "L"}}}),
+    ]
+    verdicts = tracecheck.validate("TracePairs.tla", [dict(e) for _, e in bad], batch=100)
+    rejected = {v["id"] for v in verdicts if v["tag"] == "TV"}
+    for i, (kind, _) in enumerate(bad):
+        if i not in rejected:
+            raise MachineryError(f"binding self-test: TLC accepted a corrupted answer ({kind})")
+    st.traces = len(bad)
+    st.nontrivial = len(bad)
+    st.notes.append("corruptions rejected: " + ", ".join(k for k, _ in bad))
+    st.samples.append({"corruption": bad[0][0], "event": bad[0][1]})
+    parts.append(st)
     for cfg, inv, fid, note in COMPANIONS:
         t0 = time.time()
         kf = run_tlc("MC_Pairs.tla", cfg, expect_violation=True)
